@@ -316,6 +316,11 @@ func runC03(c *core.Ctx) {
 		ringLen = rings[c.Index/2]
 		m = sgen.Gen(r, sgen.Size{Agencies: 1, Routes: 2, Stops: ringLen + 2, Transfers: 2, Calendars: 1, CalDates: 1, Shapes: 0, ShapePtsPer: 1, Trips: 2, Freqs: 0, StopTimesPer: 3, Exact: true})
 		c.Feature("parent-ring-size-sweep")
+	} else if k := c.Index - 2*len(rings); c.Thorough() && k < 3 {
+		// thorough only: stops.txt of a whole country (a slice that grows past 2^17 elements, tens of thousands of unused
+		// capacity slots at the end)
+		m = sgen.Gen(r, sgen.Size{Agencies: 1, Routes: 2, Stops: []int{70001, 152967, 239519}[k], Transfers: 4, Calendars: 1, CalDates: 1, Shapes: 0, ShapePtsPer: 1, Trips: 2, Freqs: 0, StopTimesPer: 3, Exact: true})
+		c.Feature("huge-stops-file")
 	} else if c.Index < nLarge {
 		m = sgen.Gen(r, largeSizes[c.Index%len(largeSizes)])
 		c.Feature("large-model")
